@@ -9,7 +9,7 @@ import json
 import vlib, m2, m3
 from batch import Batch, J
 
-PROOF_TARGETS = ["TypifyModel.Proofs.C02", "TypifyModel.Proofs.FlattenFindings"]
+PROOF_TARGETS = ["TypifyModel.Proofs.C02", "TypifyModel.Proofs.FlattenFindings", "TypifyModel.Proofs.Tagging"]
 PROOF_FILES = ["Proofs/C02.lean", "Proofs/Lemmas/ConvLemmas.lean", "Proofs/Lemmas/ConvAccepts.lean",
                "Proofs/Lemmas/ConvAccepts2.lean", "Proofs/Lemmas/ConvAccepts3.lean"]
 
@@ -146,7 +146,14 @@ def attribute(fd_list, doc, key, schema, value, dump, answer=""):
 def run(ctx):
     import gen
     findings = vlib.load_findings("C02")
-    st = vlib.proof_stage(ctx, "C02", PROOF_TARGETS, PROOF_FILES, slices=["ir"])
+    st = vlib.proof_stage(ctx, "C02", PROOF_TARGETS, PROOF_FILES + ["Proofs/Tagging.lean"], slices=["ir", "tag"])
+    # which shape a union gets (Option / enum under which tagging / flattened struct): convert_one_of and enums.rs against their model (M0)
+    import tagstage
+    tstats, tdis = tagstage.stage(ctx, ctx.tier == "thorough") if st["driver_ok"] else ({"ran": False}, [])
+    ctx.log("union shape M0: %s disagreements=%d" % (tstats, len(tdis)))
+    if tdis:
+        st["broken"].append("correspondence M0 (convert_one_of / enums.rs tagging detection vs Model/Tagging.lean) disagrees on %d of %d requests" % (len(tdis), tstats.get("requests", 0)))
+        json.dump(tdis[:50], open(vlib.os.path.join(vlib.CACHE, "c02_tag_disagreements.json"), "w"), indent=1)
     cs = cases(ctx)
     b = Batch(ctx, assertions=False, ops=("de",), ops_for="all")
     bc = []
@@ -253,9 +260,9 @@ def run(ctx):
     if broken and not fails:
         vlib.violation(ctx, {"property": "C02", "kind": "property no longer shown to hold", "broken_obligations": broken,
                              "first_disagreements": [{"case": rq[0].tag, "input": rq[0].request, "type_id": rq[1], "payload": rq[3], "compiled": ra, "model": ma} for rq, ra, ma in r["disagreements"][:3]],
-                             "first_m4_disagreements": m4_dis[:3], "lean_log": st.get("log", "")}, no_input=True)
-    cov = {"obligations": st["obligations"], "discharged": st["discharged"],
-           "checker_cmd": "cd /verif/lean && lake build TypifyModel.Proofs.C02 && lake env lean TypifyModel/Audit/C02.lean",
+                             "first_m4_disagreements": m4_dis[:3], "union_shape_disagreements": tdis[:3], "lean_log": st.get("log", "")}, no_input=True)
+    cov = {"union_shape_M0": tstats, "obligations": st["obligations"], "discharged": st["discharged"],
+           "checker_cmd": "cd /verif/lean && lake build TypifyModel.Proofs.C02 TypifyModel.Proofs.Tagging && lake env lean TypifyModel/Audit/C02.lean",
            "trusted_base": vlib.TRUSTED_BASE + ["python-jsonschema Draft7Validator (tools/oracle.py) as the independent validity oracle", "serde modelled (Model/Serde.lean), tied by M3", "rustc"],
            "axioms": st.get("axioms", {}),
            "evaluations": len(reqs), "distinct_nontrivial": len(reqs),
